@@ -11,6 +11,7 @@ import (
 	"os"
 	"strconv"
 	"strings"
+	"sync"
 	"time"
 
 	"com.tuntun.rangers/node/src/common"
@@ -134,11 +135,93 @@ func (w *World) Set(a common.Address, v *big.Int) {
 }
 
 func (w *World) Init(id int, s Script) {
+	noteScript("init", s)
 	w.inits[id] = s
 	w.out.Emit(fmt.Sprintf("init %d %s", id, s.String()), "ok")
 }
 
+// ---- input distribution of the streams (printed into the evidence: STATS.dist)
+
+var dist = map[string]map[string]int{}
+var distMu sync.Mutex
+
+func note(table, key string) {
+	distMu.Lock()
+	defer distMu.Unlock()
+	m := dist[table]
+	if m == nil {
+		m = map[string]int{}
+		dist[table] = m
+	}
+	m[key]++
+}
+
+// msgBucket: the receipt message with numbers, addresses and hashes removed.
+func msgBucket(msg string) string {
+	if i := strings.LastIndex(msg, "err: "); i > 24 {
+		tail := msg[i:]
+		if len(tail) > 60 {
+			tail = tail[:60]
+		}
+		return msgBucket(msg[:24]) + " .. " + msgBucket(tail)
+	}
+	var sb strings.Builder
+	prev := byte(0)
+	for i := 0; i < len(msg) && sb.Len() < 48; i++ {
+		c := msg[i]
+		if c >= '0' && c <= '9' {
+			c = '#'
+		}
+		if c == '#' && prev == '#' {
+			continue
+		}
+		sb.WriteByte(c)
+		prev = c
+	}
+	return sb.String()
+}
+
+func noteTx(line string, status byte, msg string, dev bool) {
+	f := strings.Fields(line)
+	kind := f[1]
+	if kind == "ct" {
+		if f[6] == "-" {
+			kind = "ct-create"
+		} else {
+			kind = "ct-call"
+		}
+		if f[2] == "1" {
+			kind += "-eth"
+		}
+	}
+	if kind == "op" {
+		note("op_targets", f[4])
+	}
+	note("tx_kind_status", kind+" "+string(status))
+	if status != 's' {
+		b := msgBucket(msg)
+		if status == 'e' {
+			b = "(evicted) " + b
+		}
+		note("failure_kind", kind+": "+b)
+	} else if msg != "" && kind != "ct-call" && kind != "ct-create" && kind != "ct-call-eth" && kind != "ct-create-eth" {
+		note("success_msg", kind+": "+msgBucket(msg))
+	}
+}
+
+func noteScript(table string, s Script) {
+	note(table+"_len", strconv.Itoa(len(s)))
+	for _, a := range s {
+		k := a.Kind
+		if a.Val != nil && a.Val.Sign() != 0 {
+			k += "+value"
+		}
+		note("script_actions", k)
+	}
+}
+
 func (w *World) Code(a common.Address, s Script) {
+	noteScript("code", s)
 	if len(s) == 0 {
 		// The assembled code of an empty script is the single byte STOP, so the account IS a contract for
 		// the code (RemoveMiner keeps a fully refunded miner whose account is a contract).  The model decides
@@ -430,6 +513,7 @@ func (w *World) Exec() BlockResult {
 		} else {
 			res.Msgs = append(res.Msgs, "")
 		}
+		noteTx(q.line, st.String()[st.Len()-1], res.Msgs[len(res.Msgs)-1], w.fork.label == "dev")
 		if q.isCt {
 			w.out.Emit(q.line+" "+strconv.FormatUint(gu, 10), "q")
 		} else {
